@@ -15,8 +15,8 @@ import (
 
 func init() {
 	Register(&Prop{ID: "C47", Title: "Stateless validation and decoders never panic",
-		Technique: "call-graph reachability (static callees plus ibc-go implementers of ibc-go interfaces) from every stateless-validation method and every parser/decoder entry point, with an SSA lint for constructs that can panic in ibc-go's own code: explicit panic, type assertion without comma-ok, calls to dependency functions documented to panic (Must*, constructors that validate by panicking), integer division by a non-constant, and index/slice expressions not covered by a recognised bounds idiom; frozen allow-list with one reason per construct",
-		LevelText: "Decides that no function of ibc-go reachable from a ValidateBasic/Validate method of a message, packet-data, acknowledgement, metadata or genesis type, or from the identifier/height/denomination parsers and the packet-data, memo, metadata, callback-data and ABI decoders, contains: an explicit panic, an unchecked type assertion, a call to a dependency function that panics on bad input, a division whose divisor is not a non-zero constant, or an index/slice operation outside the recognised safe idioms (range variable of the indexed value, constant index under a dominating length test, index bounded by a dominating comparison with len, full or prefix slice bounded by len) — except the allow-listed constructs, each with its reason. Dependencies (protobuf, amino, json, abi, big-number and SDK helper code) are trusted not to panic on their own; nil-pointer dereferences of nested protobuf fields are not decided.",
+		Technique: "call-graph reachability (static callees plus ibc-go implementers of ibc-go interfaces) from every stateless-validation method and every parser/decoder entry point, with an SSA lint for constructs that can panic in ibc-go's own code: explicit panic, type assertion without comma-ok, calls to dependency functions documented to panic (Must*, constructors that validate by panicking), integer division by a non-constant, index/slice expressions not covered by a recognised bounds idiom, and dereferences of the result of a comma-ok type assertion / map lookup without a dominating success test (built-in positive and negative examples on every run); frozen allow-list with one reason per construct",
+		LevelText: "Decides that no function of ibc-go reachable from a ValidateBasic/Validate method of a message, packet-data, acknowledgement, metadata or genesis type, or from the identifier/height/denomination parsers and the packet-data, memo, metadata, callback-data and ABI decoders, contains: an explicit panic, an unchecked type assertion, a call to a dependency function that panics on bad input, a division whose divisor is not a non-zero constant, or an index/slice operation outside the recognised safe idioms (range variable of the indexed value, constant index under a dominating length test, index bounded by a dominating comparison with len, full or prefix slice bounded by len) — except the allow-listed constructs, each with its reason. Also decides one class of nil dereference: the value of a comma-ok type assertion or of a map lookup with pointer/interface values is dereferenced only where a dominating test established that the operation succeeded (or that the value is not nil). Dependencies (protobuf, amino, json, abi, big-number and SDK helper code) are trusted not to panic on their own; other nil-pointer dereferences (nested protobuf fields, values that flow through variables or calls) are not decided.",
 		Note:      "go/types + go/ssa", Design: "§5 C47", Run: runC47})
 }
 
@@ -65,7 +65,24 @@ var c47Entries = []string{
 	"apps/rate-limiting/types.ParseDenomFromSendPacket", "apps/rate-limiting/types.ParseDenomFromRecvPacket",
 }
 
+// built-in examples for the nil-dereference part of the lint (expected count on the tree: zero)
+const nilDerefExamples = `package selftest
+type T struct{ A int }
+type I interface{ M() int }
+func unchecked(x any) int { v, _ := x.(*T); return v.A }
+func uncheckedCopy(x any) T { v, _ := x.(*T); return *v }
+func uncheckedIface(x any) int { v, _ := x.(I); return v.M() }
+func mapMiss(m map[string]*T) int { return m["k"].A }
+func checked(x any) int { v, ok := x.(*T); if !ok { return 0 }; return v.A }
+func checkedAnd(x any) bool { v, ok := x.(*T); return ok && v.A > 0 }
+func checkedNil(x any) int { v, _ := x.(*T); if v == nil { return 0 }; return v.A }
+func mapOk(m map[string]*T) int { if v, ok := m["k"]; ok { return v.A }; return 0 }
+`
+
 func runC47(c *Ctx) {
+	c.lintSelfTest("C47/self-test/nil-dereference", nilDerefExamples,
+		map[string]bool{"unchecked": true, "uncheckedCopy": true, "uncheckedIface": true, "mapMiss": true, "checked": false, "checkedAnd": false, "checkedNil": false, "mapOk": false},
+		func(fn *ssa.Function) int { return len(nilDerefs(fn)) })
 	c47Used = map[string]bool{}
 	for _, which := range []string{"main", "wasm"} {
 		c.c47Scan(which)
@@ -266,7 +283,7 @@ func panicConstructs(fn *ssa.Function) []panicSiteT {
 			}
 		}
 	}
-	return out
+	return append(out, nilDerefs(fn)...)
 }
 
 func derefType(t types.Type) types.Type {
